@@ -112,7 +112,10 @@ def worker(kp, job):
     # out-of-range pairs
     for o2, why in (({'from_measure': -1}, 'negative start'), ({'to_measure': M + 1}, 'end beyond M'),
                     ({'from_measure': 2, 'to_measure': 1}, 'end before start'), ({'from_measure': -3, 'to_measure': M}, 'negative start'),
-                    ({'from_measure': 1, 'to_measure': M + 7}, 'end beyond M')):
+                    ({'from_measure': 1, 'to_measure': M + 7}, 'end beyond M'),
+                    ({'from_measure': 1, 'to_measure': 0}, 'end before start'), ({'from_measure': max(M, 1), 'to_measure': 0}, 'end before start'),
+                    ({'from_measure': max(M, 2), 'to_measure': max(M, 2) - 1}, 'end before start'),
+                    ({'from_measure': max(M, 2), 'to_measure': 1}, 'end before start')):
         o = dict(st, **o2)
         try:
             kp.dumps(doc, **{k: v for k, v in o.items()})
